@@ -13,7 +13,9 @@
    _update_to_integrate ("t is where the stepper already is, up to 4 ulp") and
    `skip` says whether the code version has it; `resolved near skip (t0 :: ts)`
    says the requested times are not closer to each other than that test
-   resolves (C18_skip_rule_exact: always true for dyadic times < 2^50 units). *)
+   resolves (C18_skip_rule_exact: always true for dyadic times < 2^50 units).
+   `closed_trace` / `increments` / `reuse_steps` (C18/Model.v, StepRule): the
+   closed form of the propagator applications of a run, and the step-reuse rule. *)
 From Coq Require Import ZArith List Bool.
 From QV Require Import C18.Model C18.Proofs.
 Import ListNotations.
@@ -165,6 +167,43 @@ Theorem C18_skip_rule_exact : forall skip (l : list Z),
 Proof. exact ZI_resolved. Qed.
 Print Assumptions C18_skip_rule_exact.
 
+(* THE STEP RULE.  For every accepted configuration of every code version and EVERY
+   list of requested times, the sequence of propagator applications is the closed
+   form `closed_trace` of (installed routine, t0, requested times) alone: 'solve'
+   applies U(t - t0) to p0; 'expm' applies U(t - t_prev) with t_prev the previously
+   requested time - exactly the increment, however close it is to the step before
+   (no step size is remembered, rounded or reused); 'integrate' asks the stepper
+   to go from where it is to t.  This is what the trace correspondence observes
+   on the implementation (operator handed to expm_multiply = (-i (t - evo.t)) H). *)
+Theorem C18_step_rule :
+  forall (T Op St : Type) (tsub : T -> T -> T) (U : T -> Op) (P : T -> T -> Op)
+         (actL actR : Op -> St -> St) (steps : T -> T -> list T) (near : T -> T -> bool) (skip : bool),
+  forall v c r m q, construct v c = Accepted r m q ->
+  forall (t0 : T) (p0 : St) (ts : list T),
+    rev (s_trace T St (run T Op St tsub U P actL actR steps near skip (init T St r m q t0 p0) ts))
+    = closed_trace T tsub near skip r t0 t0 ts.
+Proof. exact step_rule. Qed.
+Print Assumptions C18_step_rule.
+
+(* A step-reuse rule ("keep the scaled operator of the previous step and use it
+   again when `close dt cached`") applies the right steps for every list of
+   requested times IF its key test accepts only the cached step itself ... *)
+Theorem C18_step_reuse_exact_key_sound :
+  forall (T : Type) (tsub : T -> T -> T) (close : T -> T -> bool),
+  (forall a b, close a b = true -> a = b) ->
+  forall ts cache prev, reuse_steps T tsub close cache prev ts = increments T tsub prev ts.
+Proof. exact reuse_exact_key_sound. Qed.
+Print Assumptions C18_step_reuse_exact_key_sound.
+
+(* ... and, on the integer time grid, ONLY if: any key test that accepts two
+   different steps (any absolute or relative tolerance) makes some run apply a
+   wrong step.  The code as it stands is the instance close = (fun _ _ => false). *)
+Theorem C18_step_reuse_sound_iff_exact_key : forall close : Z -> Z -> bool,
+  (forall t0 ts, ZI.zreuse_steps close None t0 ts = ZI.zincrements t0 ts)
+  <-> (forall a b, close a b = true -> a = b).
+Proof. exact ZI_reuse_iff. Qed.
+Print Assumptions C18_step_reuse_sound_iff_exact_key.
+
 (* non-vacuity: the integer instance satisfies the contract, so the theorems
    above apply to it; and concrete runs of the model *)
 Example C18_examples :
@@ -189,6 +228,13 @@ Example C18_examples :
                  [Ev_int 2097152%Z 2097160%Z; Ev_int 2097160%Z 2097168%Z] [2097152; 2097156; 2097160; 2097160; 2097164; 2097168]%Z
   (* the test is a genuine few-ulp test, not equality: beyond 2^50 units neighbours coincide *)
   /\ ZI.near (2 ^ 60) (2 ^ 60 + 1) = true /\ ZI.near 2097152 2097153 = false
+  /\ ZI.zclosed_trace false R_expm_ket 4%Z 4%Z [10; 10; 16; 8]%Z
+     = [Ev_expm 6%Z false; Ev_expm 0%Z false; Ev_expm 6%Z false; Ev_expm (-8)%Z false]
+  (* steps 2^20, 2^20 + 1, 2^20 (equal to 1e-6 relative): a tolerance key test reuses the first one, the elapsed time is off *)
+  /\ ZI.zreuse_steps (ZI.tol_close 0 100000) None 0%Z [1048576; 2097153; 3145729]%Z = [1048576; 1048576; 1048576]%Z
+  /\ ZI.zincrements 0%Z [1048576; 2097153; 3145729]%Z = [1048576; 1048577; 1048576]%Z
+  (* tiny steps (all below the absolute tolerance): nothing moves after the first step 0 *)
+  /\ ZI.zreuse_steps (ZI.tol_close 10 100000) None 0%Z [0; 3; 7]%Z = [0; 0; 0]%Z
   /\ construct current (mk_config M_other false H_tuple false false) = Accepted R_solved_ket M_solve None
   /\ construct current (mk_config M_expm false H_linop false false) = Raised E_Type.
 Proof.
